@@ -1335,6 +1335,59 @@ theorem extract_fromPath_typed (conn : Data) (va : String → Option FVal) (name
 example : fromFieldPath (some (.int 5432)) = some "5432" ∧ fromFieldPath (some (.strs ["a", "b"])) = some "[\"a\",\"b\"]" ∧
     fromFieldPath (some (.bool true)) = some "true" ∧ fromFieldPath (some (.str "db")) = some "db" := by decide
 
+/-! ### blank entries in the key filter -/
+
+/-- **"All keys" only when the XRD lists NONE.** A filter that is not empty allows exactly the keys
+it lists; in particular a list of blank entries only (connectionSecretKeys: [""]) allows no
+non-blank key at all - blank entries are not dropped before the "empty means all" test. -/
+theorem allowed_nonempty_iff (filter : List String) (k : String) (h : filter ≠ []) :
+    allowed filter k = true ↔ k ∈ filter := by
+  cases filter with
+  | nil => exact absurd rfl h
+  | cons a as => simp [allowed]
+
+theorem allowed_blanks_only (filter : List String) (k : String) (h : filter ≠ []) (hb : ∀ f ∈ filter, f = "")
+    (hk : k ≠ "") : allowed filter k = false := by
+  cases hq : allowed filter k with
+  | false => rfl
+  | true => exact absurd (hb k ((allowed_nonempty_iff filter k h).mp hq)) hk
+
+/-- … hence such an XRD publishes nothing: the desired data is empty for every detail map with
+non-blank keys, whatever the secret held before -/
+theorem desiredData_blanks_only (filter : List String) (details : Data) (h : filter ≠ []) (hb : ∀ f ∈ filter, f = "")
+    (hd : ∀ kv ∈ details, kv.1 ≠ "") : desiredData filter details = [] := by
+  unfold desiredData
+  rw [List.filter_eq_nil_iff]
+  intro kv hkv
+  simp [allowed_blanks_only filter kv.1 h hb (hd kv hkv)]
+
+/-- blank entries next to real keys allow nothing more than the real keys -/
+theorem allowed_ignores_blanks (filter : List String) (k : String) (hk : k ≠ "") (hr : ∃ f ∈ filter, f ≠ "") :
+    allowed filter k = allowed (filter.filter (· ≠ "")) k := by
+  obtain ⟨f, hf, hf'⟩ := hr
+  have h1 : filter ≠ [] := by intro e; simp [e] at hf
+  have h2 : filter.filter (· ≠ "") ≠ [] := by
+    intro e
+    have : f ∈ filter.filter (· ≠ "") := List.mem_filter.mpr ⟨hf, by simp [hf']⟩
+    rw [e] at this
+    cases this
+  cases hq : allowed filter k with
+  | true =>
+    have := (allowed_nonempty_iff filter k h1).mp hq
+    exact ((allowed_nonempty_iff _ k h2).mpr (by simp [this, hk])).symm
+  | false =>
+    cases hq' : allowed (filter.filter (· ≠ "")) k with
+    | false => rfl
+    | true =>
+      have := (allowed_nonempty_iff _ k h2).mp hq'
+      have hm : k ∈ filter := (List.mem_filter.mp this).1
+      rw [(allowed_nonempty_iff filter k h1).mpr hm] at hq
+      cases hq
+
+example : desiredData ["", ""] [("user", "u"), ("pass", "p")] = [] ∧
+    desiredData ["", "user"] [("user", "u"), ("pass", "p")] = [("user", "u")] ∧
+    desiredData [] [("user", "u"), ("pass", "p")] = [("user", "u"), ("pass", "p")] := by decide
+
 /-! ### regenerated call skeletons (Xp.Gen.C09Skel, extracted from the current tree on every run)
 equal the skeletons declared next to the model (Model/C09Skel.lean) -/
 
